@@ -15,6 +15,7 @@ import (
 	"runtime"
 	"strconv"
 	"strings"
+	"sync"
 	"sync/atomic"
 	"syscall"
 	"testing"
@@ -28,6 +29,7 @@ import (
 	"verifsim/harness"
 	_ "verifsim/props/c13"
 	c13 "verifsim/props/c13"
+	_ "verifsim/props/c09"
 	c14 "verifsim/props/c14"
 	c16 "verifsim/props/c16"
 )
@@ -573,4 +575,72 @@ func c01Battery(k int, u, v string) string {
 	default:
 		return "p" + v + " = new(struct { P" + u + " *struct { Q" + u + " int64 } })\ntry { p" + v + ".P" + u + ".Q" + u + " } catch e" + v + " { }\nf" + v + " = import(\"fmt\")\nf" + v + ".Sprintf(\"%v-%v\", 1, \"" + u + "\")\nt" + v + " = import(\"time\")\nt" + v + ".Now().Unix()"
 	}
+}
+
+// TestRaceC09 is the real-thread leg of C09: the property is stated per program, and the simulation runs one
+// program at a time. Here eight to sixteen goroutines run generated (program, fault plan) pairs AT THE SAME TIME, each
+// on its own environment, each judged by the same reference semantics. A case that fails is run again with every
+// other goroutine stopped: if it passes alone, the executions interfered with each other (state the interpreter keeps
+// per function type, per syntax node, per process ...) - class concurrent-differs; if it fails alone as well, the
+// process has been left in a state in which the property no longer holds - class corrupted-process, with the
+// original class in the text. Failures here do not replay exactly.
+func TestRaceC09(t *testing.T) {
+	seed, d := budget()
+	p := harness.Lookup("C09")
+	start := time.Now()
+	end := start.Add(d)
+	workers := 8 + int(seed%9)
+	var gate sync.RWMutex // a failing case is re-run under the write side: alone
+	var next atomic.Int64
+	var ran, withOwnType atomic.Int64
+	var failed atomic.Bool
+	var once sync.Once
+	var wg sync.WaitGroup
+	for w := 0; w < workers; w++ {
+		wg.Add(1)
+		go func() {
+			defer wg.Done()
+			for time.Now().Before(end) && !failed.Load() {
+				i := next.Add(1)
+				c := p.Gen((seed<<20)+i, "race")
+				// for a stretch of 40 ms every program that gives its probe a Go type of its own uses the SAME one
+				// (so that one function type stays in use next to the script function types long enough to meet
+				// them wherever the interpreter keeps something per type), then the next one
+				round := int(time.Since(start) / (40 * time.Millisecond))
+				if c.Knobs["ptype"] > 0 || i%2 == 0 {
+					c.Knobs["ptype"] = 1 + (int(seed%1000)*37+round)%4000
+				}
+				if c.Knobs["ptype"] > 0 {
+					withOwnType.Add(1)
+				}
+				gate.RLock()
+				r := p.Run(nil, c, false)
+				gate.RUnlock()
+				ran.Add(1)
+				if r.Violation == "" {
+					continue
+				}
+				gate.Lock()
+				alone := p.Run(nil, c, false)
+				gate.Unlock()
+				once.Do(func() {
+					failed.Store(true)
+					if out := os.Getenv("VERIF_RACE_OUT"); out != "" {
+						b, _ := json.Marshal(map[string]any{"case": c, "class": r.Violation})
+						os.WriteFile(out+".case", b, 0o644)
+					}
+					if alone.Violation == "" {
+						fmt.Printf("REAL-LEG VIOLATION class=concurrent-differs\nwhile %d other programs were running on other goroutines (separate environments) this one violated the reference semantics (%s); run again alone, in the same process, it conforms:\n%s\n", workers-1, r.Violation, r.Detail)
+					} else {
+						fmt.Printf("REAL-LEG VIOLATION class=corrupted-process\nthis program violated the reference semantics (%s) while %d others were running, and still does (%s) when run alone in the same process afterwards - the sweep of single runs in fresh processes decides whether it fails there too:\n%s\n", r.Violation, workers-1, alone.Violation, alone.Detail)
+					}
+				})
+			}
+		}()
+	}
+	wg.Wait()
+	if failed.Load() {
+		t.FailNow()
+	}
+	report(map[string]any{"workloads": ran.Load(), "concurrent_programs": workers, "programs_whose_probe_has_its_own_go_type": withOwnType.Load(), "seconds": d.Seconds()})
 }
